@@ -68,10 +68,12 @@ type ConsPlan struct {
 	Cfg     ConsCfg
 	Steps   []ConsStep
 	LeaveOpen bool // leave the last transactions open at the end (C05)
+	CloseEarly bool // close the consumer right after the steps, without draining (discards buffered fetches)
 }
 
 type ConsFocus struct {
 	Txn      bool // transactional producers present
+	ForceRC  bool // always read_committed (C05)
 	NoFaults bool
 	MaxSteps int
 }
@@ -106,6 +108,9 @@ func GenConsPlan(t *rapid.T, f ConsFocus) ConsPlan {
 	c.ReadCommitted = rapid.Bool().Draw(t, "rc")
 	if f.Txn {
 		c.ReadCommitted = rapid.IntRange(0, 4).Draw(t, "rc") != 0
+	}
+	if f.ForceRC {
+		c.ReadCommitted = true
 	}
 	c.KeepControl = rapid.IntRange(0, 3).Draw(t, "keepcontrol") == 0
 	c.ByTopic = rapid.IntRange(0, 2).Draw(t, "bytopic") == 0
@@ -164,12 +169,13 @@ func GenConsPlan(t *rapid.T, f ConsFocus) ConsPlan {
 		}
 		p.Steps = append(p.Steps, s)
 	}
+	p.CloseEarly = rapid.IntRange(0, 3).Draw(t, "closeearly") == 0
 	return p
 }
 
 func (p ConsPlan) Brief() string {
 	var b strings.Builder
-	fmt.Fprintf(&b, "brokers=%d topics=%v parts=%v prefill=%v start=%v ntxn=%d txnto=%v leaveopen=%v cfg=%+v steps:", p.Brokers, p.Topics, p.Parts, p.Prefill, p.Start, p.NTxn, p.TxnTO, p.LeaveOpen, p.Cfg)
+	fmt.Fprintf(&b, "brokers=%d topics=%v parts=%v prefill=%v start=%v ntxn=%d txnto=%v leaveopen=%v closeearly=%v cfg=%+v steps:", p.Brokers, p.Topics, p.Parts, p.Prefill, p.Start, p.NTxn, p.TxnTO, p.LeaveOpen, p.CloseEarly, p.Cfg)
 	for i, s := range p.Steps {
 		fmt.Fprintf(&b, " [%d +%v %s", i, s.Delay, s.Kind)
 		switch s.Kind {
@@ -239,6 +245,7 @@ type ConsObs struct {
 	Aborted  map[TP]map[int64]bool // offsets of aborted or open transactional data records
 	OpenTxn  map[TP]map[int64]bool // offsets of data records of still-open transactions
 	Drained  bool
+	ClosedEarly bool
 	TruthStable bool
 	StepKinds []string
 	FaultWhileBuffered bool
@@ -643,6 +650,22 @@ func RunCons(e *bubble.Env, p ConsPlan, extra ...kgo.Opt) *ConsObs {
 		cl.ResumeFetchPartitions(map[string][]int32{t: ps})
 	}
 	if spin, _ := e.Net.Spinning(); spin {
+		return o
+	}
+	if p.CloseEarly {
+		// a last fetch is very likely buffered or in flight now
+		time.Sleep(p.Cfg.MaxWait + 10*time.Millisecond)
+		e.Settle()
+		o.QuiescentBuffered = append(o.QuiescentBuffered, cl.BufferedFetchRecords())
+		cdone := make(chan struct{})
+		go func() { cl.Close(); close(cdone) }()
+		bubble.WaitTimeout(cdone, Bound)
+		fs := cl.PollFetches(context.Background())
+		o.PollsAfterCloseClosed = fs.IsClientClosed()
+		time.Sleep(time.Minute)
+		e.Settle()
+		o.FinalBufferedRecs, o.FinalBufferedBytes = cl.BufferedFetchRecords(), cl.BufferedFetchBytes()
+		o.ClosedEarly = true
 		return o
 	}
 	// Transactions left open are aborted by the broker once their timeout passes; let that
